@@ -330,6 +330,50 @@ func (c04Suite) Gen(rng *Rng, tier string, w *bufio.Writer, stats *Stats) {
 			}
 		}
 	}
+	// second family: text that reaches the SQL without passing the Cypher lexer (query builders, pg statement builders)
+	seenBSite := map[string]bool{}
+	for ti, t := range c04BTemplates {
+		firstOfSite := !seenBSite[t.Site]
+		seenBSite[t.Site] = true
+		emitB := func(s string) {
+			n++
+			fmt.Fprintf(w, "# case %d %s %s\n", n, t.Site, t.ID)
+			fmt.Fprintf(w, "t %s std %s\n", t.ID, jsonQuote(s))
+			stats.Inc(t.Kind)
+		}
+		for si, s := range append(c04BuilderNames(), fixed...) {
+			if !thorough && !firstOfSite && (si+ti)%3 != 0 {
+				continue
+			}
+			emitB(s)
+		}
+		for i := 0; i < nrand; i++ {
+			emitB(c04Random(rng))
+		}
+		if firstOfSite {
+			for _, s := range c04Long()[:2] {
+				emitB(s)
+			}
+		}
+	}
+}
+
+// c04BuilderNames: names aimed at the builders' symbol guard — one per ASCII character that is not a letter, digit or
+// underscore (in second position, where the guard's "part" class applies, and in first position), the characters of the
+// Unicode symbol/punctuation/mark/number categories, and bare names the guard accepts.
+func c04BuilderNames() []string {
+	var out []string
+	for c := rune(0x21); c < 0x7f; c++ {
+		if c == '_' || (c >= '0' && c <= '9') || (c >= 'a' && c <= 'z') || (c >= 'A' && c <= 'Z') {
+			continue
+		}
+		out = append(out, "a"+string(c)+"b", string(c)+"a", "a"+string(c))
+	}
+	out = append(out,
+		"a||b", "x<y", "x>y", "n<>all", "c+1>0", "a=b", "a~b", "a^b", "a`b", "a|b", "total_$", "a$b", "$a", "1a", "a1", "_a", "__",
+		"gr\u00f6\u00dfe", "\u00e9", "a\u0301", "a\u00d7b", "a\u00f7b", "a\u00acb", "a\u00a6b", "a\u20acb", "a\u00a3", "a\u00b1b", "a\u2212b", "a\u2264b", "a\u00a8b", "a\u00b4b",
+		"a\u00a9b", "a\u2122b", "a\u00b0b", "a\u2028b", "a\u00a0b", "a\u200db", "a\u2160", "\u2160a", "a\u203fb", "a\u0660b", "a\u00b2b", "a\u00bdb", "a\uff0bb", "a\uff1cb")
+	return out
 }
 
 // ---------------------------------------------------------------- run
@@ -511,8 +555,9 @@ func (r *c04Runner) Step(t []string, raw string) string {
 	if len(t) < 4 || t[0] != "t" {
 		return "bad-op"
 	}
+	btmpl, isBuilder := c04BTmplIndex[t[1]]
 	tmpl, ok := c04TmplIndex[t[1]]
-	if !ok {
+	if !ok && !isBuilder {
 		return "bad-op"
 	}
 	enc := t[2]
@@ -523,6 +568,9 @@ func (r *c04Runner) Step(t []string, raw string) string {
 	s, ok := jsonUnquote(rest)
 	if !ok || !utf8.ValidString(s) {
 		return "bad-op"
+	}
+	if isBuilder {
+		return c04bStep(btmpl, s, r.stats)
 	}
 	hraw, ok1 := c04Token(tmpl.Kind, enc, s)
 	braw, ok2 := c04Token(tmpl.Kind, enc, c04Benign)
